@@ -49,7 +49,11 @@ func runCtxCase(a args, idx int, r *h.Rand) {
 			// a second up command that succeeds: a failure of the first one must not be forgotten
 			ups = append(ups, tok(cx+"|up2"))
 		}
-		ctxs[cx] = runner.NewExecutionContext(&utils.Binary{}, "", variables.NewVariables(), ups, []string{tok(cx + "|down")}, []string{tok(cx + "|cb")}, []string{tok(cx + "|ca")})
+		down := tok(cx + "|down")
+		if r.Chance(30) {
+			down += "; exit 1" // a failing shutdown hook of one context says nothing about the others
+		}
+		ctxs[cx] = runner.NewExecutionContext(&utils.Binary{}, "", variables.NewVariables(), ups, []string{down}, []string{tok(cx + "|cb")}, []string{tok(cx + "|ca")})
 	}
 	var tasks []*task.Task
 	for i := 0; i < ntask; i++ {
